@@ -281,6 +281,10 @@ class Interp:
         if self.depth >= self.MAX_DEPTH:
             raise AnalysisError(f'inlining depth exceeded at {fi.fq}')
         decs = fi.decorators()
+        if bound is None and fi.cls is None and any(d.split('.')[-1] == 'singledispatch' for d in decs) and (args or kwargs):
+            impl = self.single_dispatch(fi, args[0] if args else next(iter(kwargs.values())))
+            if impl is not fi:
+                return self.call_function(impl, args, kwargs, closure=closure)
         node = fi.node
         env: dict = dict(closure) if closure else {}
         a = node.args
@@ -1016,6 +1020,43 @@ class Interp:
                     stack.append(cmi.classes[b])
         return _MISSING
 
+    def single_dispatch(self, fi: FuncInfo, value):
+        """functools.singledispatch: the implementation registered for the most specific class `value` is an instance of."""
+        mi = self.repo.module(fi.module)
+        matches = []
+        for other in mi.functions.values():
+            for d in other.node.decorator_list:
+                call = d if isinstance(d, ast.Call) else None
+                f = call.func if call else d
+                if not (isinstance(f, ast.Attribute) and f.attr == 'register' and isinstance(f.value, ast.Name) and f.value.id == fi.qualname):
+                    continue
+                if call and call.args:
+                    texpr = call.args[0]
+                else:
+                    params = other.node.args.posonlyargs + other.node.args.args
+                    texpr = params[0].annotation if params and params[0].annotation is not None else None
+                    if isinstance(texpr, ast.Constant) and isinstance(texpr.value, str):
+                        texpr = ast.parse(texpr.value, mode='eval').body
+                if texpr is None:
+                    raise AnalysisError(f'{other.fq}: singledispatch registration without a class')
+                t = self.eval(texpr, {}, mi)
+                r = self.model._isinstance(self, value, t, d)
+                if r is None or isinstance(r, Opaque):
+                    raise AnalysisError(f'{fi.fq}: cannot decide which implementation handles {value!r}')
+                if r:
+                    matches.append((t, other))
+        if not matches:
+            return fi
+        if len(matches) > 1:
+            # the most specific registered class: the one whose instances are instances of every other match
+            def sub(a, b):
+                return isinstance(a, ClassRef) and isinstance(b, ClassRef) and self.model._isinstance(self, SObj(a.ci, {}), b, None) is True
+            best = [m for m in matches if all(m is o or sub(m[0], o[0]) for o in matches)]
+            if len(best) != 1:
+                raise AnalysisError(f'{fi.fq}: ambiguous singledispatch for {value!r}')
+            return best[0][1]
+        return matches[0][1]
+
     def find_method(self, ci: ClassInfo, name: str):
         seen = set()
         stack = [ci]
@@ -1061,7 +1102,7 @@ class Interp:
         for k in e.keywords:
             if k.arg is None:
                 d = self.eval(k.value, env, mi)
-                if not isinstance(d, dict):
+                if not isinstance(d, dict | type(type.__dict__)):
                     raise AnalysisError(f'**kwargs of non-dict at {self.where(e)}')
                 kwargs.update(d)
             else:
@@ -1074,6 +1115,21 @@ class Interp:
         if isinstance(fn, ClassRef):
             return self.construct(fn.ci, args, kwargs, node)
         if isinstance(fn, ExtRef):
+            out = kwargs.get('out')
+            if fn.path.startswith('numpy.') and isinstance(out, SVar) and out.kind == 'raw':
+                # a numpy ufunc writing into the buffer of a variable (x.values): the variable holds the result afterwards
+                r = self.model.call_ext(self, fn.path, args, {k: v for k, v in kwargs.items() if k != 'out'}, node)
+                self.mutate(out, node, f'{fn.path}(out=)')
+                owner = out.view_of
+                rt = r.term if isinstance(r, SVar) else None
+                out.term = rt
+                if isinstance(r, SVar):
+                    out.hist = getattr(r, 'hist', out.hist)
+                if isinstance(owner, SVar):
+                    owner.term = rt * owner.unit.scale() if (rt is not None and owner.unit is not None) else None
+                    if rt is None:
+                        owner.why = f'buffer overwritten by {fn.path}(out=)'
+                return out
             return self.model.call_ext(self, fn.path, args, kwargs, node)
         if isinstance(fn, BoundModel):
             return self.model.call_method(self, fn.recv, fn.name, args, kwargs, node)
@@ -1255,6 +1311,11 @@ class Interp:
                 return Opaque('in: unhashable')
             return r if isinstance(op, ast.In) else not r
         sym = self._CMP[type(op)]
+        if sym in ('==', '!=') and (isinstance(a, bool) or isinstance(b, bool)):
+            # a predicate compared with a known truth value is the predicate or its negation
+            p, k = (b, a) if isinstance(a, bool) else (a, b)
+            if (isinstance(p, SVar) and p.dtype == 'bool') or (isinstance(p, Opaque) and p.cond_term is not None):
+                return p if k == (sym == '==') else Opaque('not ⊤', cond_term=('not', p))
         if isinstance(a, SVar) or isinstance(b, SVar):
             return self.model.compare(self, sym, a, b, node)
         if isinstance(a, Opaque) or isinstance(b, Opaque):
